@@ -5,14 +5,20 @@ from pyvc.spec import *
 
 GV = "xgi/core/globalviews.py::"
 
+
+def rsnap(x):
+    """Snapshot of a result that is a network (symbolic VNet, or already a snapshot in replay)."""
+    return x if isinstance(x, Snap) else Snap(x)
+
+
 s = contract(GV + "subhypergraph", [("H", "net:H"), ("nodes", "val", None), ("edges", "val", None), ("keep_isolates", "bool", True)])
 s.variants = [{"H": "net:H"}, {"H": "net:DH"}]
 s.modifies = []
 s.result = "net:H"
 s.req("Inv", lambda c, A: Inv(c, A.snap0["H"]), ("C19",))
 s.req("Fresh", lambda c, A: Fresh(c, A.snap0["H"]), ("C19",))
-s.ens("result-frozen", ("C18", "C19"), lambda c, A, R: Snap(R.result).frozen)
-s.ens("result-consistent", ("C19",), lambda c, A, R: Inv(c, Snap(R.result)))
+s.ens("result-frozen", ("C18", "C19"), lambda c, A, R: rsnap(R.result).frozen)
+s.ens("result-consistent", ("C19",), lambda c, A, R: Inv(c, rsnap(R.result)))
 s.ens_all("argument-unchanged", ("C19", "C08"), lambda c, A, R: same_state(c, A.snap0["H"], R.snap["H"]))
 for e_ in ("TypeError", "XGIError", "ValueError", "IndexError", "UnboundLocalError", "IDNotFound"):
     s.exc(e_)
